@@ -20,6 +20,7 @@ from harness import ref_tables as T
 from harness.runner import Result
 
 ID = "C03"
+OPTIMIZED_PASS = True      # the whole search runs once more under python -OO (harness/runner.py)
 LEVEL = "exploration"
 RULE = ("enumeration from the reference table: (row, legal argument tuple) with the tuple ranging over every "
         "destination x instance byte x parameter value the standard allows for the row's addressing form "
